@@ -27,6 +27,9 @@ def models(tier):
                                    SchedMode='"fifo"', Gather='"by_task"'), 1),
             ("schedules", dict(Names='<<"a","b">>', MaxLev=1, MaxBox=3, MaxFile=3, MaxVars=1, W=2,
                                SchedMode='"all"', Gather='"by_task"'), 1),
+            # every ordered selection of up to three out of FOUR fields (contiguous in the file or not, in any order)
+            ("selections of a four-field input", dict(Names=NAMES4, MaxLev=1, MaxBox=1, MaxFile=1, MaxVars=3, W=2,
+                                                      SchedMode='"fifo"', Gather='"by_task"'), 1),
         ]
     return [
         ("content", dict(Names=NAMES4, MaxLev=2, MaxBox=3, MaxFile=2, MaxVars=2, W=2,
@@ -57,7 +60,7 @@ def run_scenario(chk, sc, cfgseed, ndims=3, payload="wild", flavour="sched", wor
     ren = lambda names: [n if n == "all" else nm[n] for n in names]
     sc = dict(sc, fields=ren(sc["fields"]), vars=ren(sc["vars"]), expect=dict(sc["expect"], fields=ren(sc["expect"]["fields"])))
     ap = compare.ap_from_scenario("A", sc["fields"], sc["levels"], ndims=ndims)
-    d = chk.tmp()
+    d = chk.tmp_reuse()
     os.makedirs(d)
     src = os.path.join(d, "in")
     out = os.path.join(d, "out")
